@@ -197,6 +197,7 @@ void invariants_at_cycle() {
 
 // ------------------------------------------------------------------ user table dump (observed state for C12/C13/C14 oracles)
 int kernel_conn_of_fd(int fd);
+void kernel_dump_conns();
 void dump_users(const char *when) {
   for (int i = 0; all_users && i < max_users; i++) {
     interactive_t *ip = all_users[i];
@@ -374,6 +375,7 @@ int sim_main_run(const Plan &plan) {
     S.in_backend = false;
   }
   dump_users("final");
+  kernel_dump_conns();
   ev("backend_returned cycles=%ld instr=%ld faults=%ld timer_fires=%ld", S.cycle, S.instr_total, S.faults_fired, S.timer_fires);
   std::string st;
   for (auto &kv : S.stats) { st += " " + kv.first + "=" + std::to_string(kv.second); }
